@@ -105,6 +105,12 @@ func (k Keeper) InitGenesis(
 			recordKeyBytes, _ := hexutil.Decode(recordKey)
 			k.AppendUndelegationToMature(ctx, epoch, recordKeyBytes)
 			k.SetUndelegationMaturityEpoch(ctx, recordKeyBytes, epoch)
+			// the hold this module placed on the record is not part of the delegation module's
+			// genesis; place it again, otherwise the undelegation is released before its
+			// maturity epoch on the re-imported chain.
+			if err := k.delegationKeeper.IncrementUndelegationHoldCount(ctx, recordKeyBytes); err != nil {
+				panic(fmt.Sprintf("could not hold undelegation %s: %s", recordKey, err))
+			}
 		}
 	}
 	// ApplyValidatorChanges only gets changes and hence the vote power must be set here.
